@@ -104,7 +104,10 @@ def build(P):
                                                  "task_is_a_member", "isinstance(self.evaluation_task, EvaluationTask)",
                                                  "table_is_a_function", "all([implies(a.name == b.name, a.label is b.label) for a in self.label_infos for b in self.label_infos])",
                                                  "registered_names_are_lower_case", "all([a.name == a.name.lower() for a in self.label_infos])",
-                                                 "labels_belong_to_the_family", f"all([isinstance(a.label, {lcls}) for a in self.label_infos])")))
+                                                 "labels_belong_to_the_family", f"all([isinstance(a.label, {lcls}) for a in self.label_infos])") +
+                                               (E("same_table_as_for_the_task_member", "len(self.label_infos) == len(ref.label_infos) and "
+                                                  "all([any([b.name == a.name and b.label is a.label for b in ref.label_infos]) for a in self.label_infos])") if as_str else []),
+                                       ghosts=({"ref": lambda it, fr, task=task, merge=merge, prefix=prefix: converter(it, task, merge, prefix)} if as_str else None)))
             if as_str:
                 continue
             conv = lambda it, task=task, merge=merge, prefix=prefix: converter(it, task, merge, prefix)
